@@ -15,16 +15,23 @@ import (
 	"time"
 
 	"github.com/goatcms/goatcore/app"
+	"github.com/goatcms/goatcore/app/gio"
 	"github.com/goatcms/goatcore/app/modules/pipelinem/pipservices"
 	"github.com/goatcms/goatcore/app/modules/pipelinem/pipservices/namespaces"
 	"github.com/goatcms/goatcore/app/scope"
 	"github.com/goatcms/goatcore/app/scope/contextscope"
+	"github.com/goatcms/goatcore/app/terminal"
+	"github.com/goatcms/goatcore/app/terminal/termexec"
 )
 
 func init() { runners["C14"] = runC14 }
 
 type gCmd struct {
-	Kind string `json:"kind"` // begin | end | fail | gate | spawn | fork (C16 only: two concurrent nested tasks)
+	// begin | end | fail | gate | spawn | fork (C16 only: two concurrent nested tasks) |
+	// bad (a command name the terminal does not know: the command fails without any probe event) |
+	// badq (a line that cannot be parsed - unterminated quote; always the last line of its script)
+	Kind string `json:"kind"`
+	Pad  int    `json:"pad,omitempty"` // how the line is written: blank / whitespace-only lines before it, leading / trailing blanks
 	Sub  *gTask `json:"sub,omitempty"`
 	Sub2 *gTask `json:"sub2,omitempty"`
 }
@@ -42,6 +49,10 @@ type gTask struct {
 	// interleavings, they never add behaviour: the model ignores them, the traces stay acceptable,
 	// and "every accepted submission eventually finishes" must hold with them too.
 	Lock map[string]bool `json:"lock,omitempty"`
+	// Via: the top-level task is submitted through the real `pip:run` command (termexec.RunString on
+	// the task's isolated scope, in a goroutine of its own: the command returns when the task has
+	// finished) instead of Runner.Run; wait list and locks go through --wait / --rlock / --wlock.
+	Via bool `json:"via,omitempty"`
 }
 
 type nameTable struct {
@@ -61,6 +72,13 @@ func (t *nameTable) num(full string) int {
 
 type c14gen struct {
 	fork   bool // C16 try bodies: allow one fork command
+	bad    bool // failing commands may be an unknown command / an unparsable line instead of the fail probe
+	pad    bool // scripts with blank lines, whitespace-only lines, leading and trailing blanks
+	via    bool // top-level tasks may go through the pip:run command
+	deep   int  // nested submissions down to this depth (0: 2)
+	plain  bool // C16: no fork command, no late-nested-run shape, manager bound beforehand
+	// C16: prefix of the full task names of a try block (the namespace of the task the block runs in)
+	tryPrefix string
 	uid    int
 	rng    *RNG
 	budget int
@@ -77,7 +95,14 @@ func (g *c14gen) body(owner *gTask, depth int, mayFail bool) {
 	for i := 0; i < n; i++ {
 		switch {
 		case i == failAt:
-			owner.Body = append(owner.Body, &gCmd{Kind: "fail"})
+			kind := "fail"
+			if g.bad && g.rng.Chance(70) {
+				kind = "bad"
+				if g.rng.Chance(25) {
+					kind, n = "badq", i+1 // swallows the rest of the script: last line
+				}
+			}
+			owner.Body = append(owner.Body, &gCmd{Kind: kind})
 		case g.fork && depth == 1 && g.rng.Chance(45):
 			// one command, two concurrent nested tasks: "a" enters a gate and then fails, "b" is held in a gate
 			g.fork = false
@@ -91,7 +116,7 @@ func (g *c14gen) body(owner *gTask, depth int, mayFail bool) {
 				return sub
 			}
 			owner.Body = append(owner.Body, &gCmd{Kind: "fork", Sub: mk("fa", "gate", "fail"), Sub2: mk("fb", "begin", "gate", "end")})
-		case depth < 2 && g.budget > 0 && g.rng.Chance(22):
+		case depth < g.maxDepth() && g.budget > 0 && g.rng.Chance(22):
 			g.budget--
 			local := fmt.Sprintf("c%d", len(sibs))
 			if len(sibs) > 0 && g.rng.Chance(6) {
@@ -125,6 +150,20 @@ func (g *c14gen) body(owner *gTask, depth int, mayFail bool) {
 			owner.Body = append(owner.Body, &gCmd{Kind: "end"})
 		}
 	}
+	if g.pad {
+		for _, c := range owner.Body {
+			if g.rng.Chance(40) {
+				c.Pad = 1 + g.rng.Intn(5)
+			}
+		}
+	}
+}
+
+func (g *c14gen) maxDepth() int {
+	if g.deep > 0 {
+		return g.deep
+	}
+	return 2
 }
 
 func (g *c14gen) graph() []*gTask {
@@ -161,6 +200,7 @@ func (g *c14gen) graph() []*gTask {
 			t.Waits = append(t.Waits, fmt.Sprintf("t%d", k+1+g.rng.Intn(2))) // a later task
 		}
 		t.Num = g.names.num(t.Full)
+		t.Via = g.via && g.rng.Chance(35)
 		g.body(t, 1, g.rng.Chance(25))
 		tops = append(tops, t)
 	}
@@ -173,27 +213,116 @@ func (t *gTask) script(epoch string) string {
 	var sb strings.Builder
 	for i, c := range t.Body {
 		id := cmdID(epoch, t.UID, i)
+		post := "\n"
+		switch c.Pad {
+		case 1:
+			sb.WriteString("\n")
+		case 2:
+			sb.WriteString("  ")
+		case 3:
+			sb.WriteString("\t\n \n")
+		case 4:
+			post = "  \n"
+		case 5:
+			sb.WriteString(" \t")
+			post = " \t\n\n"
+		}
 		if c.Kind == "fork" {
-			fmt.Fprintf(&sb, "fork %s --name=%s --name2=%s %s %s\n", id, c.Sub.Local, c.Sub2.Local,
+			fmt.Fprintf(&sb, "fork %s --name=%s --name2=%s %s %s", id, c.Sub.Local, c.Sub2.Local,
 				refQuote1("--body="+c.Sub.script(epoch)), refQuote1("--body2="+c.Sub2.script(epoch)))
 		} else if c.Kind == "spawn" {
 			fmt.Fprintf(&sb, "spawn %s --name=%s", id, c.Sub.Local)
 			if len(c.Sub.WLoc) > 0 {
 				fmt.Fprintf(&sb, " --wait=%s", strings.Join(c.Sub.WLoc, ","))
 			}
-			sb.WriteString(" " + refQuote1("--body="+c.Sub.script(epoch)) + "\n")
+			sb.WriteString(" " + refQuote1("--body="+c.Sub.script(epoch)))
+		} else if c.Kind == "bad" {
+			fmt.Fprintf(&sb, "nosuchcmd %s", id)
+		} else if c.Kind == "badq" {
+			fmt.Fprintf(&sb, "begin \"%s", id)
 		} else {
-			fmt.Fprintf(&sb, "%s %s\n", c.Kind, id)
+			fmt.Fprintf(&sb, "%s %s", c.Kind, id)
 		}
+		sb.WriteString(post)
 	}
 	return sb.String()
+}
+
+// cmdline is the `tsub` (= pip:run + a log entry with its result) command line of a top-level task.
+func (t *gTask) cmdline(id, epoch string) string {
+	var sb strings.Builder
+	fmt.Fprintf(&sb, "tsub %s --name=%s", id, t.Local)
+	if len(t.Waits) > 0 {
+		fmt.Fprintf(&sb, " --wait=%s", strings.Join(t.Waits, ","))
+	}
+	var rl, wl []string
+	for r, w := range t.Lock {
+		if w {
+			wl = append(wl, r)
+		} else {
+			rl = append(rl, r)
+		}
+	}
+	sort.Strings(rl)
+	sort.Strings(wl)
+	if len(rl) > 0 {
+		fmt.Fprintf(&sb, " --rlock=%s", strings.Join(rl, ","))
+	}
+	if len(wl) > 0 {
+		fmt.Fprintf(&sb, " --wlock=%s", strings.Join(wl, ","))
+	}
+	sb.WriteString(" " + refQuote1("--body="+t.script(epoch)))
+	return sb.String()
+}
+
+func hasBadKind(tops []*gTask) (bad bool) {
+	for _, t := range tops {
+		t.walk(func(x *gTask) {
+			for _, c := range x.Body {
+				if c.Kind == "bad" || c.Kind == "badq" {
+					bad = true
+				}
+			}
+		})
+	}
+	return bad
+}
+
+// registerTsub adds the `tsub` command: the registered pip:run callback on the very same command
+// context, then a log entry "TS" with its result (= was the submission accepted).
+func (pa *pipApp) registerTsub() {
+	term := pa.mapp.Terminal()
+	pipRun := term.Command("pip:run")
+	if pipRun == nil {
+		must(fmt.Errorf("pip:run is not registered"))
+	}
+	term.SetCommand(terminal.NewCommand(terminal.CommandParams{Name: "tsub", Callback: func(a app.App, ctx app.IOContext) error {
+		var arg struct {
+			ID string `command:"?$1"`
+		}
+		ctx.Scope().InjectTo(&arg)
+		e := pipRun.Callback()(a, ctx)
+		pa.log.add("TS", arg.ID, e == nil)
+		return e
+	}}))
+}
+
+func (l *probeLog) find(kind, id string) (e pEvent, ok bool) {
+	l.mu.Lock()
+	defer l.mu.Unlock()
+	for _, x := range l.events {
+		if x.Kind == kind && x.ID == id {
+			return x, true
+		}
+	}
+	return e, false
 }
 
 func (t *gTask) coqBody(names *nameTable) string {
 	var items []string
 	for _, c := range t.Body {
 		switch c.Kind {
-		case "fail":
+		case "fail", "bad", "badq":
 			items = append(items, "CFail")
 		case "spawn":
 			items = append(items, fmt.Sprintf("CSpawn %d %s %s", c.Sub.Num, coqNums(c.Sub.Waits, names), c.Sub.coqBody(names)))
@@ -232,6 +361,7 @@ type c14obs struct {
 	Names    []string        `json:"names"`
 	Errors   map[string]bool `json:"errors"`
 	Mgr      string          `json:"mgr"` // ok | err | hang | panic
+	EarlyW   string          `json:"early_wait,omitempty"` // "" (none) | returned | hang | panic: a second TasksManager.Wait begun while bodies are still held in their gates
 	MaxIn    int             `json:"max_inside"`
 	GateHang int             `json:"gate_hangs"`
 }
@@ -264,6 +394,7 @@ func runGraph(pa *pipApp, rng *RNG, epoch string, tops []*gTask) (ob c14obs) {
 	early := rng.Chance(30) // release gates while submissions are still going on
 	var scopes []app.Scope
 	var ctxs []app.ContextScope
+	var viaDone []chan struct{}
 	done := make(chan struct{})
 	go func() {
 		defer close(done)
@@ -272,6 +403,35 @@ func runGraph(pa *pipApp, rng *RNG, epoch string, tops []*gTask) (ob c14obs) {
 			scopes = append(scopes, scp)
 			ctxs = append(ctxs, cs)
 			pa.log.add("S", fmt.Sprintf("%s.%d", epoch, k), true)
+			if t.Via {
+				// the pip:run command returns when the task has finished: it gets a goroutine of its own;
+				// the submitter goes on as soon as the submission's result is known
+				id := fmt.Sprintf("%s.top.%d", epoch, k)
+				line := t.cmdline(id, epoch)
+				ctx := gio.NewIOContext(scp, gio.NewIO(gio.IOParams{In: gio.NewInput(strings.NewReader("")), Out: gio.NewNilOutput(), Err: gio.NewNilOutput(), CWD: pa.cwd}))
+				ret := make(chan struct{})
+				viaDone = append(viaDone, ret)
+				go func() {
+					defer close(ret)
+					guarded(60*time.Second, func() error {
+						return termexec.RunString(termexec.NewRunCtx(termexec.RunCtxParams{Application: pa.mapp, Ctx: ctx, Commands: pa.mapp.Terminal()}), line)
+					})
+				}()
+				waitFor(10*time.Second, func() bool {
+					select {
+					case <-ret:
+						return true
+					default:
+					}
+					return pa.log.has("TS", id)
+				})
+				ev, seen := pa.log.find("TS", id)
+				ob.Results = append(ob.Results, seen && ev.OK)
+				if rng.Chance(30) {
+					time.Sleep(time.Duration(50+rng.Intn(300)) * time.Microsecond)
+				}
+				continue
+			}
 			e, p, _ := guarded(10*time.Second, func() error {
 				p := pa.pip(scp, ns, t.Local, t.Waits, t.script(epoch))
 				p.Lock = t.Lock
@@ -283,16 +443,49 @@ func runGraph(pa *pipApp, rng *RNG, epoch string, tops []*gTask) (ob c14obs) {
 			}
 		}
 	}()
+	// every second graph: a TasksManager.Wait that begins when all top-level submissions are in and
+	// (unless the gates were opened early) every gated body is still held; "W" is logged when it returns
+	var wres chan string
+	earlyWait := func() {
+		if !rng.Chance(50) {
+			return
+		}
+		wres = make(chan string, 1)
+		pa.log.add("WB", epoch+".wait.0", true)
+		go func() {
+			e, p, h := guarded(25*time.Second, mgr.Wait)
+			switch {
+			case h:
+				wres <- "hang"
+			case p:
+				wres <- "panic"
+			default:
+				pa.log.add("W", epoch+".wait.0", e == nil)
+				wres <- "returned"
+			}
+		}()
+	}
 	if !early {
 		<-done
 		time.Sleep(time.Duration(200+rng.Intn(800)) * time.Microsecond)
+		earlyWait()
 	}
 	for _, g := range gates {
 		time.Sleep(time.Duration(30+rng.Intn(400)) * time.Microsecond)
 		pa.log.release(g)
 	}
 	<-done
+	if early {
+		earlyWait()
+	}
 	e, p, h := guarded(2*time.Second, mgr.Wait)
+	if wres != nil {
+		select {
+		case ob.EarlyW = <-wres:
+		case <-time.After(3 * time.Second):
+			ob.EarlyW = "hang"
+		}
+	}
 	switch {
 	case h:
 		ob.Mgr = "hang"
@@ -319,6 +512,12 @@ func runGraph(pa *pipApp, rng *RNG, epoch string, tops []*gTask) (ob c14obs) {
 	}
 	ob.Events, ob.MaxIn, ob.GateHang = pa.log.snapshot()
 	if !h {
+		for _, r := range viaDone {
+			select {
+			case <-r:
+			case <-time.After(3 * time.Second):
+			}
+		}
 		for _, s := range scopes {
 			s := s
 			guarded(2*time.Second, func() error { return s.Close() })
@@ -375,8 +574,12 @@ func c14oracles(o *Out, cs *c14case, tops []*gTask) {
 	}
 	// events per task
 	evs := map[string][]pEvent{}
-	for _, e := range ob.Events {
-		if e.Kind == "S" {
+	var wEv *pEvent
+	for k, e := range ob.Events {
+		if e.Kind == "W" {
+			wEv = &ob.Events[k]
+		}
+		if e.Kind != "B" && e.Kind != "E" && e.Kind != "SR" {
 			continue
 		}
 		uid, _ := parseID(e.ID)
@@ -414,6 +617,9 @@ func c14oracles(o *Out, cs *c14case, tops []*gTask) {
 		prereqFailed := false
 		for _, w := range t.Waits {
 			u := reg[w]
+			if u == nil {
+				continue // accepted against the rule (reported by accept_rule): nothing to order it after
+			}
 			if failedAt[w] {
 				prereqFailed = true
 			}
@@ -436,6 +642,9 @@ func c14oracles(o *Out, cs *c14case, tops []*gTask) {
 		for k := 0; k < len(l); k++ {
 			e := l[k]
 			_, i := parseID(e.ID)
+			if !stopped && pos < len(t.Body) && (t.Body[pos].Kind == "bad" || t.Body[pos].Kind == "badq") {
+				failed, stopped = true, true // fails without a probe event; nothing of this body may follow
+			}
 			if stopped {
 				fail("sequential_body", fmt.Sprintf("%s: event %s%d after a failed command", t.Full, e.Kind, i))
 				break
@@ -489,6 +698,9 @@ func c14oracles(o *Out, cs *c14case, tops []*gTask) {
 			}
 			pos++
 		}
+		if !stopped && !prereqFailed && pos < len(t.Body) && (t.Body[pos].Kind == "bad" || t.Body[pos].Kind == "badq") {
+			failed, stopped = true, true
+		}
 		if !stopped && !prereqFailed && pos != len(t.Body) {
 			fail("accept_finishes", fmt.Sprintf("%s had no failure but executed only %d of %d commands", t.Full, pos, len(t.Body)))
 		}
@@ -532,6 +744,27 @@ func c14oracles(o *Out, cs *c14case, tops []*gTask) {
 	}
 	if (ob.Mgr == "err") != anyErr {
 		fail("manager_wait", fmt.Sprintf("TasksManager.Wait returned %s but some task has errors=%v", ob.Mgr, anyErr))
+	}
+	// the Wait that began while the bodies were still held: returns, not before the last command of
+	// any task, and with an error exactly when some task failed
+	switch ob.EarlyW {
+	case "hang", "panic":
+		fail("manager_wait", "a TasksManager.Wait begun while tasks were running: "+ob.EarlyW)
+	case "returned":
+		if wEv == nil {
+			fail("harness_probe", "early Wait returned without a log entry")
+			break
+		}
+		for _, e := range ob.Events {
+			if e.Seq > wEv.Seq && (e.Kind == "B" || e.Kind == "E" || e.Kind == "SR") {
+				uid, i := parseID(e.ID)
+				fail("wait_covers_all", fmt.Sprintf("TasksManager.Wait returned (seq %d) while a task was still executing: event %s of command %d of %s at seq %d", wEv.Seq, e.Kind, i, uid, e.Seq))
+				break
+			}
+		}
+		if wEv.OK == anyErr {
+			fail("manager_wait", fmt.Sprintf("TasksManager.Wait (begun while tasks were running) returned nil=%v but some task has errors=%v", wEv.OK, anyErr))
+		}
 	}
 }
 
@@ -584,13 +817,20 @@ func runC14(o *Out, rng *RNG, tier string, replay string) {
 	o.Rule = "generated task graphs: 2-7 top-level tasks (<= 10 tasks in all), wait lists = random subsets of earlier tasks plus (rarely) an unknown name, " +
 		"the task itself, a later task; duplicate names; bodies of 1-4 probe commands (begin/end/gate/fail) with nested pip:run (depth <= 2, nested waits on siblings); " +
 		"~25% of the tasks fail at a random command. Submitted through Runner.Run by one submitter goroutine concurrently with the running tasks, " +
-		"every top-level task on its own isolated context (scope.NewChild + contextscope.NewIsolated). Non-trivial: at least two tasks accepted and at least one probe event; distinct by graph+trace."
+		"every top-level task on its own isolated context (scope.NewChild + contextscope.NewIsolated). " +
+		"35% of the top-level tasks are submitted through the real pip:run command (wait list and locks as --wait / --rlock / --wlock; termexec.RunString in a goroutine of its own), the others through Runner.Run; " +
+		"nested pip:run down to depth 3 (names a:b:c, waits on siblings at every level); scripts are written with blank lines, whitespace-only lines, leading and trailing blanks; " +
+		"in every second graph a TasksManager.Wait begins as soon as the submissions are in, while the gated bodies are still held (it must return after the last command of every task, with an error iff some task failed); " +
+		"40 further graphs (oracles only) in which a failing command is a command name the terminal does not know or a line that cannot be parsed. Non-trivial: at least two tasks accepted and at least one probe event; distinct by graph+trace."
 	pa, err := newPipApp()
 	must(err)
-	n := 200
+	pa.registerTsub()
+	n, extra := 200, 40
 	if tier == "thorough" {
-		n = 5000
+		n, extra = 5000, 1000
 	}
+	nMain := n // graphs nMain .. nMain+extra-1: failing commands may be unknown commands / unparsable lines (L2 only)
+	n += extra
 	only := -1
 	if replay != "" {
 		var rp struct {
@@ -611,7 +851,7 @@ func runC14(o *Out, rng *RNG, tier string, replay string) {
 			continue
 		}
 		names := &nameTable{m: map[string]int{}}
-		g := &c14gen{rng: crng, names: names}
+		g := &c14gen{rng: crng, names: names, pad: true, via: true, deep: 3, bad: idx >= nMain}
 		tops := g.graph()
 		epoch := fmt.Sprintf("g%d", idx)
 		ob := runGraph(pa, crng, epoch, tops)
@@ -624,7 +864,16 @@ func runC14(o *Out, rng *RNG, tier string, replay string) {
 			}
 		}
 		key, _ := json.Marshal([]interface{}{tops, ob.Events})
-		o.AddCase(c14coq(cs, tops, names), cs, string(key), accepted >= 2 && len(ob.Events) > accepted)
+		if hasBadKind(tops) {
+			// a command that fails without entering a probe has no event the acceptor could replay: oracles only
+			o.CountEval(string(key), accepted >= 2 && len(ob.Events) > accepted)
+			o.Stat("graphs_with_unknown_command_l2_only")
+		} else {
+			o.AddCase(c14coq(cs, tops, names), cs, string(key), accepted >= 2 && len(ob.Events) > accepted)
+		}
+		if ob.EarlyW != "" {
+			o.Stat("graphs_with_wait_begun_early")
+		}
 		// distribution
 		o.Stat("graphs")
 		o.Stat("mgr_" + ob.Mgr)
@@ -643,15 +892,21 @@ func runC14(o *Out, rng *RNG, tier string, replay string) {
 		}
 		nested, failing, withWaits := 0, 0, 0
 		for _, t := range tops {
+			if t.Via {
+				o.Stat("top_via_pip_run_command")
+			}
 			t.walk(func(x *gTask) {
 				if x != t {
 					nested++
+					if strings.Count(x.Full, ":") >= 2 {
+						o.Stat("tasks_nested_twice")
+					}
 				}
 				if len(x.Waits) > 0 {
 					withWaits++
 				}
 				for _, c := range x.Body {
-					if c.Kind == "fail" {
+					if c.Kind == "fail" || c.Kind == "bad" || c.Kind == "badq" {
 						failing++
 					}
 				}
